@@ -99,7 +99,7 @@ def build(spec, fs_dir=None):
     return loaded
 
 
-CIF_QUIRKS = ["occ_unknown", "no_type_symbol", "symop_new_key", "it_number_only", "esd"]
+CIF_QUIRKS = ["occ_unknown", "no_type_symbol", "symop_new_key", "it_number_only", "esd", "shifted_origin", "shifted_origin"]
 
 
 def apply_cif_quirks(text, spec):
@@ -119,6 +119,22 @@ def apply_cif_quirks(text, spec):
         data["atom_site_occupancy"] = occ
     if "no_type_symbol" in quirks:
         data.pop("atom_site_type_symbol", None)
+    if "shifted_origin" in quirks and "symmetry_equiv_pos_as_xyz" in data and "it_number_only" not in quirks:
+        # the same structure described from another origin: the operation list
+        # matches no tabulated setting (a legal CIF; the reader keeps the
+        # listed operations and takes the IT number as given)
+        from chmpy.crystal.symmetry_operation import SymmetryOperation
+
+        shift = np.array([0.25, 0.25, 0.0])
+        ops = []
+        for x in data["symmetry_equiv_pos_as_xyz"]:
+            op = SymmetryOperation.from_string_code(x)
+            t = np.asarray(op.translation) + (np.eye(3) - np.asarray(op.rotation)) @ shift
+            ops.append(str(SymmetryOperation(np.asarray(op.rotation), t)))
+        data["symmetry_equiv_pos_as_xyz"] = ops
+        for k, d in zip(("atom_site_fract_x", "atom_site_fract_y", "atom_site_fract_z"), shift):
+            data[k] = [float(v) + float(d) for v in data[k]]
+        data = dict([("symmetry_Int_Tables_number", int(spec["sg"][0]))] + list(data.items()))
     if "symop_new_key" in quirks and "symmetry_equiv_pos_as_xyz" in data:
         data = {
             {"symmetry_equiv_pos_as_xyz": "space_group_symop_operation_xyz",
